@@ -45,6 +45,32 @@
 namespace fs = std::filesystem;
 using namespace Opm;
 
+#ifdef C10_SELECT_PART
+// gcc's libasan has no strtof interceptor, so an over-read inside libc's strtof is invisible to the sanitizer.
+// The harness therefore interposes strtof in its own (instrumented) executable and, while the guard is on,
+// walks exactly the bytes every conforming strtof has to examine for a decimal number
+// (ws* sign? digits* ('.' digits*)? ([eE] sign? digits*)? and the one byte that ends the match).
+// If that walk leaves the object handed in, AddressSanitizer reports the heap-buffer-overflow here, deterministically.
+#include <dlfcn.h>
+static volatile bool g_guard_strtof = false;
+static volatile size_t g_sink = 0;
+extern "C" float strtof(const char* __restrict s, char** __restrict end) noexcept {
+    static auto real = reinterpret_cast<float (*)(const char*, char**)>(dlsym(RTLD_NEXT, "strtof"));
+    if (g_guard_strtof) {
+        const char* p = s;
+        while (*p == ' ' || (*p >= '\t' && *p <= '\r')) ++p;
+        if (*p == '+' || *p == '-') ++p;
+        if ((*p >= '0' && *p <= '9') || *p == '.') {
+            while (*p >= '0' && *p <= '9') ++p;
+            if (*p == '.') { ++p; while (*p >= '0' && *p <= '9') ++p; }
+            if (*p == 'e' || *p == 'E') { ++p; if (*p == '+' || *p == '-') ++p; while (*p >= '0' && *p <= '9') ++p; }
+        }
+        g_sink = static_cast<size_t>(p - s);
+    }
+    return real(s, end);
+}
+#endif
+
 static vf::Run* R;
 static std::string g_dir;
 static const int NX = 17;
@@ -82,8 +108,10 @@ static Vectors make_vectors(int N) {
 }
 
 // fingerprints: exactly representable as float and in 8 significant decimal digits
-static double fp_bpr(int c, int tag, int lm) { return (c + 1) * 32.0 + tag * 16.0 + lm; }
-static double fp_rate(int tag, int lm) { return 1000.0 + tag * 16.0 + lm; }
+// and no two of them (nor a TIME value) are related by a power of ten: integers whose last digit is 1..9
+static double fp_id(int id) { return 10.0 * (id + 7) + 1 + (id % 9); }
+static double fp_bpr(int c, int tag, int lm) { return fp_id((c * 2 + tag) * 16 + lm); }            // <= 1 572 309
+static double fp_rate(int tag, int lm) { return 10.0 * (200000 + tag * 16 + lm) + 3; }             // 2 000 003 ...
 
 struct StartDate { const char* deck; int d, m, y, hh, mi, ss; };
 static const StartDate START[2] = {{"1 JAN 2020", 1, 1, 2020, 0, 0, 0}, {"5 MAR 2021 06:30:15", 5, 3, 2021, 6, 30, 15}};
@@ -209,7 +237,16 @@ static bool feq(float got, float want, bool fmt, size_t idx) {
 }
 
 // over-read signature of the unterminated strtof buffer: the token is right, the exponent got extra digits
-static bool overread_signature(float got, float want) { return want > 0 && (std::isinf(got) || got >= want * 1.0e9f); }
+// (extra exponent digits multiply the value by an exact power of ten != 1, or overflow/underflow it; a wrong offset returns
+// another fingerprint, and no two fingerprints are related by a power of ten)
+static bool overread_signature(float got, float want) {
+    if (!(want > 0)) return false;
+    if (std::isinf(got)) return true;
+    if (got == 0) return want < 0.1f;
+    if (got < 0 || std::isnan(got)) return false;
+    const double k = std::log10(double(got) / double(want)), kr = std::round(k);
+    return kr != 0 && std::fabs(k - kr) < 1e-5;
+}
 
 struct Ctx { std::string reader, cfg, casestr; bool fmt = false; };
 static void viol(const Ctx& c, const std::string& what, const std::string& msg) {
@@ -217,6 +254,8 @@ static void viol(const Ctx& c, const std::string& what, const std::string& msg) 
 }
 
 static long long g_values = 0;
+static bool g_timing = std::getenv("C10_TIMING") != nullptr;
+struct Tm { const char* n; std::chrono::steady_clock::time_point t = std::chrono::steady_clock::now(); Tm(const char* n_) : n(n_) {} ~Tm() { if (g_timing) std::cerr << "  T " << n << " " << std::chrono::duration<double>(std::chrono::steady_clock::now() - t).count() * 1e3 << " ms\n"; } };
 
 // compare the vectors with canonical indices `which` (all if empty)
 template <class Rd>
@@ -254,13 +293,24 @@ static void check_axis(Rd& rd, const Expect& e, const Ctx& c, const std::vector<
     if (rd.numberOfTimeSteps() != n) { viol(c, "count", "numberOfTimeSteps " + std::to_string(rd.numberOfTimeSteps()) + ", expected " + std::to_string(n)); return; }
     // start date
     const bool start_ok = rd.startdate() == e.start;
-    if (!start_ok) viol(c, "startdate", "startdate() is " + std::to_string(TimeService::to_time_t(rd.startdate())) + " (time_t), START of the run is " + std::to_string(TimeService::to_time_t(e.start)) + " = " + e.sd.deck);
+    if (!start_ok && c.reader.rfind("ext-", 0) == 0 && e.sd.ss != 0 && e.start - rd.startdate() == std::chrono::seconds(e.sd.ss))
+        R->violation("C10:extesmry:startdate:seconds-dropped", c.reader + ": ExtESmry::startdate() loses the seconds of START (" + std::string(e.sd.deck) + " reads back " + std::to_string(e.sd.ss) + " s early): ExtESmry's make_date divides the ESMRY START[5] entry, which holds seconds, by 1000000  [" + c.casestr + "]", "{\"case\": " + vf::jstr(c.casestr) + "}");
+    else if (!start_ok) viol(c, "startdate", "startdate() is " + std::to_string(TimeService::to_time_t(rd.startdate())) + " (time_t), START of the run is " + std::to_string(TimeService::to_time_t(e.start)) + " = " + e.sd.deck);
     {
         const auto& sv = rd.start_v();
         if (sv.size() < 3 || sv[0] != e.sd.d || sv[1] != e.sd.m || sv[2] != e.sd.y) viol(c, "startdate", "start_v() day/month/year differ from START " + std::string(e.sd.deck));
     }
+    // dates and report-step series are derived from vectors (TIME, ...): judged only if those vectors themselves read back right
+    // (a wrong vector is reported by check_values under its own key)
+    bool derived_ok = true;
+    for (size_t idx : {size_t(0), P - 1}) {
+        const auto& v = rd.get(e.V->rkey[idx]);
+        if (v.size() != n) derived_ok = false;
+        else for (size_t m = 0; m < n; ++m) if (!feq(v[m], e.rows[m][idx], e.fmt, idx)) derived_ok = false;
+    }
+    if (!derived_ok) R->count("derived_axis_checks_skipped_vector_itself_wrong");
     // dates: relative to the reader's own start date, so that a start date defect is reported once
-    {
+    if (derived_ok) {
         auto d = rd.dates();
         if (d.size() != n) viol(c, "dates", "dates() has " + std::to_string(d.size()) + " entries, expected " + std::to_string(n));
         else for (size_t m = 0; m < n; ++m) {
@@ -269,7 +319,7 @@ static void check_axis(Rd& rd, const Expect& e, const Ctx& c, const std::vector<
         }
     }
     // report steps
-    for (size_t idx : {size_t(0), P - 1}) {
+    if (derived_ok) for (size_t idx : {size_t(0), P - 1}) {
         auto v = rd.get_at_rstep(e.V->rkey[idx]);
         bool ok = v.size() == rs.size();
         for (size_t k = 0; ok && k < rs.size(); ++k) ok = feq(v[k], e.rows[rs[k]][idx], e.fmt, idx);
@@ -282,6 +332,10 @@ static void check_axis(Rd& rd, const Expect& e, const Ctx& c, const std::vector<
     // units
     for (size_t idx = 0; idx < P; ++idx) {
         const std::string u = rd.get_unit(e.V->rkey[idx]);
+        if (u != e.V->unit[idx] && idx == 1 && u.empty() && c.reader.rfind("ext-native", 0) == 0) {
+            R->violation("C10:ext-native:units:years-unit-empty", c.reader + ": the writer's ESMRY gives YEARS the unit '' while the SMSPEC of the same run says 'YEARS' (Summary.cpp configureTimeVector pushes \"\" to valueUnits_ and kw to the SMSPEC parameter)  [" + c.casestr + "]", "{\"case\": " + vf::jstr(c.casestr) + "}");
+            continue;
+        }
         if (u != e.V->unit[idx]) { viol(c, "units", "unit of " + e.V->rkey[idx] + " is '" + u + "', written '" + e.V->unit[idx] + "'"); break; }
     }
     if (!rd.all_steps_available()) viol(c, "ministep", "all_steps_available() is false for consecutively numbered ministeps");
@@ -289,12 +343,13 @@ static void check_axis(Rd& rd, const Expect& e, const Ctx& c, const std::vector<
 }
 
 static void check_esmry_extra(const EclIO::ESmry& rd, const Expect& e, const Ctx& c) {
+    for (size_t k = 0; k < e.rs_legacy.size(); ++k)
+        if (rd.timestepIdxAtReportstepStart(int(k) + 1) != e.rs_legacy[k]) { viol(c, "rstep", "timestepIdxAtReportstepStart(" + std::to_string(k + 1) + ") = " + std::to_string(rd.timestepIdxAtReportstepStart(int(k) + 1)) + ", written position " + std::to_string(e.rs_legacy[k])); break; }
+    { const auto& v = rd.get("TIME"); if (v.size() != e.rows.size()) return; for (size_t m = 0; m < v.size(); ++m) if (!feq(v[m], e.rows[m][0], e.fmt, 0)) return; }
     auto d = rd.dates_at_rstep();
     bool ok = d.size() == e.rs_legacy.size();
     for (size_t k = 0; ok && k < d.size(); ++k) ok = (d[k] - rd.startdate()) == std::chrono::duration_cast<std::chrono::seconds>(std::chrono::duration<double>(e.days[e.rs_legacy[k]] * 86400.0));
     if (!ok) viol(c, "rstep", "dates_at_rstep() differs from the report step positions written");
-    for (size_t k = 0; k < e.rs_legacy.size(); ++k)
-        if (rd.timestepIdxAtReportstepStart(int(k) + 1) != e.rs_legacy[k]) { viol(c, "rstep", "timestepIdxAtReportstepStart(" + std::to_string(k + 1) + ") = " + std::to_string(rd.timestepIdxAtReportstepStart(int(k) + 1)) + ", written position " + std::to_string(e.rs_legacy[k])); break; }
 }
 
 // PARAMS positions worth a direct seek: first, last, around every multiple of 1000 (block boundary of both encodings)
@@ -324,11 +379,18 @@ static int child_select(const std::string& spec, bool withbase, const Expect& e,
         try {
             EclIO::ESmry sm(spec, withbase);
             std::vector<std::string> vl; for (int p : pos) vl.push_back(e.V->rkey[p]);
+#ifdef C10_SELECT_PART
+            g_guard_strtof = true;
+#endif
             sm.loadData(vl);
+#ifdef C10_SELECT_PART
+            g_guard_strtof = false;
+#endif
             check_values(sm, e, c, pos);
         } catch (const std::exception& ex) { viol(c, "throws", std::string("reader threw: ") + std::string(ex.what()).substr(0, 200)); }
         std::ofstream o(resfile);
         for (auto& v : local.violations) o << v.key << "\t" << v.what << "\n";
+        o << "VALUES\t" << g_values << "\n";
         o << "DONE\n";
         o.close();
         R = saved;
@@ -336,21 +398,23 @@ static int child_select(const std::string& spec, bool withbase, const Expect& e,
 }
 
 // ------------------------------------------------------------------- case ---
-struct Group {
+struct CaseGroup {
     std::unique_ptr<Setup> run;          // the run under test (restart deck if base > 0)
     std::unique_ptr<Setup> baseS;        // the base run's deck (base > 0)
     Series baseSeries;
+    std::unordered_set<uint64_t> seen;   // file+model states already read back in this group
 };
 
 static std::string case_string(int N, bool fmt, bool unif, int base, const std::string& script) {
     return "N=" + std::to_string(N) + " fmt=" + std::to_string(fmt) + " unif=" + std::to_string(unif) + " base=" + std::to_string(base) + " script=" + script;
 }
 
-static std::unique_ptr<Group> make_group(int N, bool fmt, bool unif, int base) {
-    auto G = std::make_unique<Group>();
+static std::unique_ptr<CaseGroup> make_group(int N, bool fmt, bool unif, int base) {
+    auto G = std::make_unique<CaseGroup>(); Tm t("group-setup");
     const int sv = N % 2;
     clean(BASE_NAME); clean(RUN_NAME);
     if (base > 0) {
+        for (int r = 1; r <= 3; ++r) { char b[64]; std::snprintf(b, sizeof b, "%s/%s.X%04d", g_dir.c_str(), BASE_NAME, r); std::ofstream(b) << ""; }   // placeholder restart files
         G->baseS = make_setup(N, fmt, unif, 0, sv, BASE_NAME);
         G->baseSeries = run_writer(*G->baseS, BASE_NAME, BASE_SCRIPT, 1, 0.0, 0, !fmt);
     }
@@ -360,7 +424,7 @@ static std::unique_ptr<Group> make_group(int N, bool fmt, bool unif, int base) {
 
 static int g_reports_printed = 0;
 
-static void run_case(Group& G, const std::string& script) {
+static void run_case(CaseGroup& G, const std::string& script) {
     Setup& S = *G.run;
     const std::string casestr = case_string(S.N, S.fmt, S.unif, S.base, script);
     R->current(casestr);
@@ -373,7 +437,7 @@ static void run_case(Group& G, const std::string& script) {
     Series own;
     double t0 = 0.0;
     if (withbase) for (auto& m : G.baseSeries.ms) if (m.rstep <= S.base) t0 = m.days;
-    try { own = run_writer(S, RUN_NAME, script, S.base + 1, t0, 1, !S.fmt); }
+    try { Tm t("writer"); own = run_writer(S, RUN_NAME, script, S.base + 1, t0, 1, !S.fmt); }
     catch (const std::exception& ex) { R->violation("C10:writer:" + cfg + ":throws", std::string("writer threw: ") + std::string(ex.what()).substr(0, 200) + "  [" + casestr + "]", "{\"case\": " + vf::jstr(casestr) + "}"); return; }
     if (own.ms.empty()) { R->count("scripts_without_ministep"); return; }          // nothing is written, nothing to read
     const Expect e = make_expect(S, withbase ? &G.baseSeries : nullptr, S.base, own);
@@ -382,15 +446,24 @@ static void run_case(Group& G, const std::string& script) {
     const int P = int(S.vec.rkey.size());
     const std::vector<int> pos = select_positions(P);
 
-    // observation: the bytes the writer produced
+    // observation = state: every file the writer produced (names + bytes).  The readers are functions of these files;
+    // a script whose files AND model are identical to an earlier script of the same group is the same state and is
+    // not read again (counted).
     {
-        uint64_t h = vf::fnv(slurp(spec));
         std::vector<std::string> files;
-        for (auto& f : fs::directory_iterator(g_dir)) { const std::string n = f.path().filename().string(); if (n.rfind(RUN_NAME, 0) == 0 && n.find("SMSPEC") == std::string::npos && n.find("ESMRY") == std::string::npos) files.push_back(f.path().string()); }
+        for (auto& f : fs::directory_iterator(g_dir)) { const std::string n = f.path().filename().string(); if (n.rfind(RUN_NAME, 0) == 0) files.push_back(n); }
         std::sort(files.begin(), files.end());
-        for (auto& f : files) h = vf::fnv(fs::path(f).filename().string() + slurp(f), h);
+        uint64_t h = vf::fnv(cfg + std::to_string(S.base));
+        for (auto& f : files) h = vf::fnv(f + slurp(g_dir + "/" + f), h);
         R->observe(h);
+        for (auto& row : e.rows) h = vf::fnv(row.data(), row.size() * sizeof(float), h);
+        h = vf::fnv(e.days.data(), e.days.size() * sizeof(double), h);
+        h = vf::fnv(e.rs_legacy.data(), e.rs_legacy.size() * sizeof(int), h);
+        h = vf::fnv(std::string("|"), h);
+        h = vf::fnv(e.rs_flag.data(), e.rs_flag.size() * sizeof(int), h);
         if (R->samples.size() < 4 && (S.N > 900 || script.size() > 2)) R->sample_str(casestr + " -> P=" + std::to_string(P) + " ministeps=" + std::to_string(e.rows.size()) + " rsteps@" + vf::join_ints(e.rs_legacy) + " files=" + std::to_string(files.size()));
+        if (!G.seen.insert(h).second) { R->count("same_files_same_model_as_earlier_script_not_reread"); return; }
+        R->count("distinct_file_states_read");
     }
 
 #ifdef C10_SELECT_PART
@@ -404,18 +477,35 @@ static void run_case(Group& G, const std::string& script) {
         R->count("selective_loads_in_child");
         if (res.find("DONE\n") != std::string::npos && rc == 0) {
             std::istringstream is(res); std::string line;
-            while (std::getline(is, line)) { if (line == "DONE") break; auto t = line.find('\t'); if (t != std::string::npos) R->violation(line.substr(0, t), line.substr(t + 1), "{\"case\": " + vf::jstr(casestr) + "}"); }
+            while (std::getline(is, line)) { if (line == "DONE") break; auto t = line.find('\t'); if (t != std::string::npos && line.substr(0, t) == "VALUES") { R->count("values_compared_in_children", std::atoll(line.c_str() + t + 1)); continue; } if (t != std::string::npos) R->violation(line.substr(0, t), line.substr(t + 1), "{\"case\": " + vf::jstr(casestr) + "}"); }
             R->count("selective_loads_completed");
         } else {
             const bool asan = err.find("ERROR: AddressSanitizer") != std::string::npos;
             const bool ubsan = err.find("runtime error:") != std::string::npos;
             const bool in_select = err.find("ESmry::loadData(std::vector") != std::string::npos || err.find("ESmry8loadData") != std::string::npos;
             const bool overflow = err.find("heap-buffer-overflow") != std::string::npos;
-            std::string head = err.substr(0, 900);
+            // deterministic excerpt of the report: summary line, object description and the frame below strtof, addresses removed
+            std::string head;
+            {
+                std::istringstream is(err); std::string line; int kept = 0;
+                while (std::getline(is, line) && kept < 6) {
+                    const bool want = line.find("ERROR:") != std::string::npos || line.find("READ of size") != std::string::npos || line.find("WRITE of size") != std::string::npos || line.find("is located") != std::string::npos || line.find("    #0 ") != std::string::npos || line.find("    #1 ") != std::string::npos || line.find("runtime error:") != std::string::npos;
+                    if (!want) continue;
+                    std::string o;
+                    for (size_t i = 0; i < line.size(); ++i) {
+                        if (line[i] == '0' && i + 1 < line.size() && line[i + 1] == 'x') { o += "0x.."; i += 2; while (i < line.size() && std::isxdigit(static_cast<unsigned char>(line[i]))) ++i; --i; }
+                        else if (line[i] == '=' && i + 1 < line.size() && line[i + 1] == '=') { size_t j = i + 2; while (j < line.size() && std::isdigit(static_cast<unsigned char>(line[j]))) ++j; if (j + 1 < line.size() && line[j] == '=' && line[j + 1] == '=') { i = j + 1; } else o += line[i]; }
+                        else o += line[i];
+                    }
+                    if (o.size() > 260) o = o.substr(0, 260) + "...";
+                    head += o + " | "; ++kept;
+                }
+                if (head.empty()) head = err.substr(0, 300);
+            }
             if (g_reports_printed < 2) { ++g_reports_printed; std::cerr << "---- child stderr for [" << casestr << "] (exit " << rc << ")\n" << err.substr(0, 4000) << "\n----\n"; }
             R->count("sanitizer_reports");
-            if (asan && overflow && S.fmt && (in_select || err.find("strtof") != std::string::npos || err.find("strtod") != std::string::npos))
-                R->violation("C10:esmry-select:fmt:unterminated-strtof", "formatted ESmry::loadData(vectList) reads past its 17-byte column buffer (AddressSanitizer heap-buffer-overflow under strtof; the buffer handed to strtof has no terminating NUL)  [" + casestr + "]  report: " + head, "{\"case\": " + vf::jstr(casestr) + "}");
+            if (asan && overflow && S.fmt && (in_select || err.find("17-byte region") != std::string::npos))
+                R->violation("C10:esmry-select:fmt:unterminated-strtof", "formatted ESmry::loadData(vectList) reads past its 17-byte column buffer (AddressSanitizer heap-buffer-overflow in the strtof precondition walk: the 17-byte buffer handed to strtof has no terminating NUL, so the conversion runs on into the bytes behind it)  [" + casestr + "]  report: " + head, "{\"case\": " + vf::jstr(casestr) + "}");
             else if (asan || ubsan) viol(c, "sanitizer", "sanitizer report in selective load (child exit " + std::to_string(rc) + "): " + head);
             else viol(c, "crash", "selective load child ended with status " + std::to_string(rc) + " without a verdict: " + head);
         }
@@ -424,7 +514,7 @@ static void run_case(Group& G, const std::string& script) {
 #else
     // ---- reader 1: ESmry, full load
     try {
-        Ctx c{"esmry-full", cfg, casestr, S.fmt};
+        Ctx c{"esmry-full", cfg, casestr, S.fmt}; Tm t("esmry-full");
         EclIO::ESmry sm(spec, withbase);
         sm.loadData();
         check_axis(sm, e, c, e.rs_legacy, true);
@@ -433,23 +523,27 @@ static void run_case(Group& G, const std::string& script) {
         R->count("reads_esmry_full");
     } catch (const std::exception& ex) { viol({"esmry-full", cfg, casestr, S.fmt}, "throws", std::string("reader threw: ") + std::string(ex.what()).substr(0, 200)); }
 
-    // ---- reader 2: ESmry, selective load of the listed positions, then every other vector through lazy get()
-    //      (get() of a vector that is not loaded calls loadData({name}): the same direct-seek path, every position)
+    // ---- reader 2: ESmry, selective load of the listed positions, then of all other positions, then lazy get()
     try {
-        Ctx c{"esmry-select", cfg, casestr, S.fmt};
+        Ctx c{"esmry-select", cfg, casestr, S.fmt}; Tm t("esmry-select");
         EclIO::ESmry sm(spec, withbase);
         std::vector<std::string> vl; for (int p : pos) vl.push_back(S.vec.rkey[p]);
         sm.loadData(vl);
         check_values(sm, e, c, pos);
         check_axis(sm, e, c, e.rs_legacy, true);
+        check_esmry_extra(sm, e, c);
+        std::vector<std::string> rest; { std::set<int> ps(pos.begin(), pos.end()); for (int p = 0; p < P; ++p) if (!ps.count(p)) rest.push_back(S.vec.rkey[p]); }
+        if (!rest.empty()) sm.loadData(rest);               // every other position through the same direct-seek path
         check_values(sm, e, c, {});
+        EclIO::ESmry lazy(spec, withbase);                  // get() of a vector that is not loaded: loadData({name})
+        check_values(lazy, e, c, pos);
         R->count("reads_esmry_select");
     } catch (const std::exception& ex) { viol({"esmry-select", cfg, casestr, S.fmt}, "throws", std::string("reader threw: ") + std::string(ex.what()).substr(0, 200)); }
 
     // ---- reader 4 (before 3: make_esmry_file refuses to overwrite): the writer's own ESMRY
     const std::string esmry = g_dir + "/" + RUN_NAME + ".ESMRY";
     if (!S.fmt) {
-        Ctx c{"ext-native", cfg, casestr, S.fmt};
+        Ctx c{"ext-native", cfg, casestr, S.fmt}; Tm t("ext-native");
         try {
             if (!fs::exists(esmry)) viol(c, "count", "the writer was asked for ESMRY output and the final write produced no " + std::string(RUN_NAME) + ".ESMRY");
             else {
@@ -486,7 +580,7 @@ static void run_case(Group& G, const std::string& script) {
 
     // ---- reader 3: SMSPEC -> ESMRY conversion, read with ExtESmry
     try {
-        Ctx c{"ext-from-conv", cfg, casestr, S.fmt};
+        Ctx c{"ext-from-conv", cfg, casestr, S.fmt}; Tm t("ext-from-conv");
         bool made;
         { EclIO::ESmry sm(spec); made = sm.make_esmry_file(); }
         if (!made) viol(c, "throws", "make_esmry_file() returned false although no ESMRY file existed");
@@ -552,6 +646,7 @@ int main(int argc, char** argv) {
     const char* sc = std::getenv("VERIF_SCRATCH");
     g_dir = std::string(sc ? sc : "/tmp") + "/C10." + std::to_string(getpid());
     fs::create_directories(g_dir);
+    fs::current_path(g_dir);          // RESTART 'C10B' is resolved relative to the working directory (EclipseState checks that C10B.X000r exists)
     g_python = std::make_shared<Python>();
 #ifdef C10_SELECT_PART
     const int maxlen = run.thorough() ? 3 : 2;
@@ -574,7 +669,7 @@ int main(int argc, char** argv) {
         auto G = make_group(N, f, u, b);
         run_case(*G, sbuf);
         G.reset();
-        fs::remove_all(g_dir);
+        fs::current_path(fs::path(g_dir).parent_path()); fs::remove_all(g_dir);
         return run.finish();
     }
 
@@ -585,7 +680,7 @@ int main(int argc, char** argv) {
     for (int N : Ns) for (int f = 0; f < 2 && !stop; ++f) for (int u = 0; u < 2 && !stop; ++u) for (int b : bases) {
         if (!run.mine(gi++)) continue;
         if (run.timed_out()) { stop = true; break; }
-        std::unique_ptr<Group> G;
+        std::unique_ptr<CaseGroup> G;
         try { G = make_group(N, f, u, b); }
         catch (const std::exception& ex) { run.violation("C10:harness:setup", std::string("deck/base run setup threw: ") + ex.what() + " N=" + std::to_string(N)); continue; }
         for (auto& s : scr) {
@@ -596,6 +691,6 @@ int main(int argc, char** argv) {
         G.reset();
     }
     run.count("values_compared", g_values);
-    fs::remove_all(g_dir);
+    fs::current_path(fs::path(g_dir).parent_path()); fs::remove_all(g_dir);
     return run.finish();
 }
